@@ -3,7 +3,11 @@ package main
 // Immutable global tables read from the loaded source (never hand-copied).
 
 import (
+	"encoding/json"
 	"fmt"
+	"os"
+	"path/filepath"
+	"sort"
 	"go/ast"
 	"go/constant"
 	"go/token"
@@ -275,4 +279,286 @@ func (e *Engine) globalConstInfo(g *ssa.Global) *globalConst {
 		gc.kind = "unknown"
 	}
 	return gc
+}
+
+// ---------- immutable global maps initialised by composite literals ----------
+
+type mapTable struct {
+	g      *ssa.Global
+	hasFn  string
+	valFn  string
+	ksort  string
+	vsort  string
+	keys   []constant.Value
+	vals   []constant.Value
+	kt, vt types.Type
+	err    error
+}
+
+// mapLiteral reads the key/value constants of a package-level map variable from the loaded source.
+func (e *Engine) mapLiteral(pkgPath, name string) ([]constant.Value, []constant.Value, error) {
+	p, ok := e.lpkgs[pkgPath]
+	if !ok {
+		return nil, nil, fmt.Errorf("package %s not loaded", pkgPath)
+	}
+	for _, f := range p.Syntax {
+		for _, d := range f.Decls {
+			gd, ok := d.(*ast.GenDecl)
+			if !ok || gd.Tok != token.VAR {
+				continue
+			}
+			for _, sp := range gd.Specs {
+				vs := sp.(*ast.ValueSpec)
+				for i, n := range vs.Names {
+					if n.Name != name || i >= len(vs.Values) {
+						continue
+					}
+					cl, ok := vs.Values[i].(*ast.CompositeLit)
+					if !ok {
+						return nil, nil, fmt.Errorf("%s.%s is not initialised by a composite literal", pkgPath, name)
+					}
+					var ks, vs2 []constant.Value
+					for _, el := range cl.Elts {
+						kv, ok := el.(*ast.KeyValueExpr)
+						if !ok {
+							return nil, nil, fmt.Errorf("%s.%s: element without key", pkgPath, name)
+						}
+						ktv, ok1 := p.TypesInfo.Types[kv.Key]
+						vtv, ok2 := p.TypesInfo.Types[kv.Value]
+						if !ok1 || !ok2 || ktv.Value == nil || vtv.Value == nil {
+							return nil, nil, fmt.Errorf("%s.%s: non-constant entry", pkgPath, name)
+						}
+						ks = append(ks, ktv.Value)
+						vs2 = append(vs2, vtv.Value)
+					}
+					return ks, vs2, nil
+				}
+			}
+		}
+	}
+	return nil, nil, fmt.Errorf("variable %s.%s not found", pkgPath, name)
+}
+
+// checkImmutableMap: the global is assigned only by the initialiser and every value loaded from it is
+// only looked up, measured or ranged over (whole-program scan).
+func (e *Engine) checkImmutableMap(g *ssa.Global) error {
+	gc := e.globalConstInfo(g)
+	if !gc.immutable {
+		return fmt.Errorf("map variable %s is assigned outside its initialiser", g.Name())
+	}
+	for _, f := range e.allFuncs() {
+		for _, b := range f.Blocks {
+			for _, in := range b.Instrs {
+				u, ok := in.(*ssa.UnOp)
+				if !ok || u.Op != token.MUL || u.X != ssa.Value(g) {
+					continue
+				}
+				if refs := u.Referrers(); refs != nil {
+					for _, r := range *refs {
+						switch t := r.(type) {
+						case *ssa.Lookup, *ssa.Range, *ssa.DebugRef:
+						case *ssa.Call:
+							if bi, ok := t.Call.Value.(*ssa.Builtin); ok && bi.Name() == "len" {
+								continue
+							}
+							return fmt.Errorf("map %s passed to a call in %s", g.Name(), f)
+						default:
+							return fmt.Errorf("map %s used by %T in %s", g.Name(), r, f)
+						}
+					}
+				}
+			}
+		}
+	}
+	return nil
+}
+
+func (e *Engine) mapTableFor(g *ssa.Global, fname string) *mapTable {
+	if mt, ok := e.mapTables[g]; ok {
+		return mt
+	}
+	mt := &mapTable{g: g, hasFn: fname + "_has", valFn: fname + "_val"}
+	e.mapTables[g] = mt
+	if err := e.checkImmutableMap(g); err != nil {
+		mt.err = err
+		return mt
+	}
+	m, ok := g.Type().(*types.Pointer).Elem().Underlying().(*types.Map)
+	if !ok {
+		mt.err = fmt.Errorf("%s is not a map", g.Name())
+		return mt
+	}
+	mt.kt, mt.vt = m.Key(), m.Elem()
+	mt.keys, mt.vals, mt.err = e.mapLiteral(g.Pkg.Pkg.Path(), g.Name())
+	return mt
+}
+
+// strIs: content test of a Str term against a literal (map lookups compare contents).
+func strIs(s string, lit string) string {
+	parts := []string{fmt.Sprintf("(= (s_len %s) %d)", s, len(lit))}
+	for i := 0; i < len(lit); i++ {
+		parts = append(parts, fmt.Sprintf("(= (s_at %s %d) %s)", s, i, bvLit(big.NewInt(int64(lit[i])), 8)))
+	}
+	return mkAnd(parts...)
+}
+
+// ensureMapTable emits the definitions of <fname>_has / <fname>_val for the map literal.
+func (vc *VC) ensureMapTable(mt *mapTable) {
+	if mt.err != nil {
+		vc.unsup("table %s: %v", mt.g.Name(), mt.err)
+	}
+	if vc.declared[mt.hasFn] {
+		return
+	}
+	vc.declared[mt.hasFn] = true
+	ks := vc.sortOf(mt.kt)
+	vs := vc.sortOf(mt.vt)
+	mt.ksort, mt.vsort = ks, vs
+	test := func(k constant.Value) string {
+		if ks == SStr {
+			return strIs("k", constant.StringVal(k))
+		}
+		return "(= k " + vc.constVal(k, mt.kt).S + ")"
+	}
+	var hs []string
+	val := vc.zeroOf(mt.vt)
+	for i := len(mt.keys) - 1; i >= 0; i-- {
+		hs = append(hs, test(mt.keys[i]))
+		val = "(ite " + test(mt.keys[i]) + " " + vc.constVal(mt.vals[i], mt.vt).S + " " + val + ")"
+	}
+	vc.emit(fmt.Sprintf("(define-fun %s ((k %s)) Bool %s)", mt.hasFn, ks, mkOr(hs...)))
+	vc.emit(fmt.Sprintf("(define-fun %s ((k %s)) %s %s)", mt.valFn, ks, vs, val))
+	vc.trusted["map "+mt.g.String()+" read through its source literal (assigned only by the initialiser, never updated: whole-program scan)"] = true
+}
+
+// lemmaDirective expands the table directives usable in spec/lemmas/*.smt2.
+func (e *Engine) lemmaDirective(line string) (string, bool, error) {
+	fs := strings.Fields(line)
+	if len(fs) < 3 || fs[0] != ";" {
+		return "", false, nil
+	}
+	switch fs[1] {
+	case "maptable": // ; maptable pkgpath.global fname
+		if len(fs) != 4 {
+			return "", true, fmt.Errorf("maptable needs: pkgpath.global fname")
+		}
+		i := strings.LastIndex(fs[2], ".")
+		var g *ssa.Global
+		for _, p := range e.prog.AllPackages() {
+			if p.Pkg.Path() == fs[2][:i] {
+				g, _ = p.Members[fs[2][i+1:]].(*ssa.Global)
+			}
+		}
+		if g == nil {
+			return "", true, fmt.Errorf("unknown global %s", fs[2])
+		}
+		if err := e.checkImmutableMap(g); err != nil {
+			return "", true, err
+		}
+		keys, vals, err := e.mapLiteral(fs[2][:i], fs[2][i+1:])
+		if err != nil {
+			return "", true, err
+		}
+		m := g.Type().(*types.Pointer).Elem().Underlying().(*types.Map)
+		vc := e.newVC(nil, &FuncSpec{})
+		ks, vs := vc.sortOf(m.Key()), vc.sortOf(m.Elem())
+		test := func(k constant.Value) string {
+			if ks == SStr {
+				return strIs("k", constant.StringVal(k))
+			}
+			return "(= k " + vc.constVal(k, m.Key()).S + ")"
+		}
+		var hs []string
+		val := vc.zeroOf(m.Elem())
+		for j := len(keys) - 1; j >= 0; j-- {
+			hs = append(hs, test(keys[j]))
+			val = "(ite " + test(keys[j]) + " " + vc.constVal(vals[j], m.Elem()).S + " " + val + ")"
+		}
+		pre := strings.Join(vc.script, "\n")
+		return pre + fmt.Sprintf("\n(define-fun %s_has ((k %s)) Bool %s)\n(define-fun %s_val ((k %s)) %s %s)\n(define-fun %s_count () Int %d)",
+			fs[3], ks, mkOr(hs...), fs[3], ks, vs, val, fs[3], len(keys)), true, nil
+	case "const": // ; const pkgpath.Name fname
+		if len(fs) != 4 {
+			return "", true, fmt.Errorf("const needs: pkgpath.Name fname")
+		}
+		i := strings.LastIndex(fs[2], ".")
+		p, ok := e.lpkgs[fs[2][:i]]
+		if !ok {
+			return "", true, fmt.Errorf("package %s not loaded", fs[2][:i])
+		}
+		c, ok := p.Types.Scope().Lookup(fs[2][i+1:]).(*types.Const)
+		if !ok {
+			return "", true, fmt.Errorf("constant %s not found", fs[2])
+		}
+		vc := e.newVC(nil, &FuncSpec{})
+		t := vc.constVal(c.Val(), c.Type())
+		return fmt.Sprintf("(define-fun %s () %s %s)", fs[3], t.Sort, t.S), true, nil
+	case "docs-yes": // ; docs-yes docs/command.md fname : lower-cased names of rows marked Yes
+		if len(fs) != 4 {
+			return "", true, fmt.Errorf("docs-yes needs: path fname")
+		}
+		b, err := os.ReadFile(filepath.Join(e.repo, fs[2]))
+		if err != nil {
+			return "", true, err
+		}
+		seen := map[string]bool{}
+		for _, l := range strings.Split(string(b), "\n") {
+			cols := strings.Split(l, "|")
+			if len(cols) >= 3 && strings.TrimSpace(cols[2]) == "Yes" {
+				seen[strings.ToLower(strings.TrimSpace(cols[1]))] = true
+			}
+		}
+		var names []string
+		for n := range seen {
+			names = append(names, n)
+		}
+		sort.Strings(names)
+		var hs []string
+		for _, n := range names {
+			hs = append(hs, strIs("k", n))
+		}
+		return fmt.Sprintf("(define-fun %s ((k Str)) Bool %s)\n(define-fun %s_count () Int %d)", fs[3], mkOr(hs...), fs[3], len(names)), true, nil
+	case "golden-arity": // ; golden-arity spec/arity.json fname
+		var doc struct {
+			Arity map[string]int `json:"arity"`
+		}
+		b, err := os.ReadFile(filepath.Join(e.verif, fs[2]))
+		if err != nil {
+			return "", true, err
+		}
+		if err := json.Unmarshal(b, &doc); err != nil {
+			return "", true, err
+		}
+		var names []string
+		for n := range doc.Arity {
+			names = append(names, n)
+		}
+		sort.Strings(names)
+		val := "(- 99)"
+		var hs []string
+		for _, n := range names {
+			hs = append(hs, strIs("k", n))
+			val = "(ite " + strIs("k", n) + " " + intLit64(int64(doc.Arity[n])) + " " + val + ")"
+		}
+		return fmt.Sprintf("(define-fun %s_has ((k Str)) Bool %s)\n(define-fun %s_val ((k Str)) Int %s)", fs[3], mkOr(hs...), fs[3], val), true, nil
+	case "golden-set": // ; golden-set spec/writes.json field fname
+		if len(fs) != 5 {
+			return "", true, fmt.Errorf("golden-set needs: file field fname")
+		}
+		var doc map[string]interface{}
+		b, err := os.ReadFile(filepath.Join(e.verif, fs[2]))
+		if err != nil {
+			return "", true, err
+		}
+		if err := json.Unmarshal(b, &doc); err != nil {
+			return "", true, err
+		}
+		arr, _ := doc[fs[3]].([]interface{})
+		var hs []string
+		for _, x := range arr {
+			hs = append(hs, strIs("k", x.(string)))
+		}
+		return fmt.Sprintf("(define-fun %s ((k Str)) Bool %s)", fs[4], mkOr(hs...)), true, nil
+	}
+	return "", false, nil
 }
